@@ -210,8 +210,10 @@ structure Getter where
   stamp0 : Nat
   deriving Repr, DecidableEq
 
+/-- Program counter of the periodic goroutine. `spawned`: `NewCache` has executed the `go` statement
+(after creating `runningCh`) but the goroutine has not run yet — no ticker exists. -/
 inductive Bg where
-  | idle | cleaning | exited
+  | spawned | idle | cleaning | exited
   deriving Repr, DecidableEq
 
 structure CState where
@@ -243,7 +245,7 @@ def effPeriod (period : Int) : Int :=
 def CState.init (maxTTL t0 period : Int) : CState :=
   { m := [], now := t0, maxTTL := maxTTL, cls := [], setters := [], getters := [],
     period := effPeriod period, nextTick := t0 + effPeriod period,
-    tickPending := false, tickerStopped := false, bg := .idle, stopClosed := false,
+    tickPending := false, tickerStopped := false, bg := .spawned, stopClosed := false,
     runningClosed := false, stoppers := [], ref := [], stamp := 0, raced := [], resetFloor := 0 }
 
 inductive Label where
@@ -259,6 +261,7 @@ inductive Label where
   | cSeal (id : Nat)
   | cDelOne (id : Nat) (k : Key) (st : Nat)
   | cEnd (id : Nat)
+  | bgStart
   | bgTake
   | bgExit
   | stopCall (caller : Nat)
@@ -320,7 +323,7 @@ def cstep (s : CState) : Label → Option CState
       some { s with m := mdelKeys s.m [k], ref := mdelKeys s.ref [k] }
   | .advance d =>
       let now' := s.now + d
-      if !s.tickerStopped && decide (s.nextTick ≤ now') && decide (0 < s.period) then
+      if !s.tickerStopped && decide (s.bg ≠ .spawned) && decide (s.nextTick ≤ now') && decide (0 < s.period) then
         some { s with now := now', tickPending := true,
                       nextTick := nextTickAfter s.nextTick s.period now' }
       else some { s with now := now' }
@@ -377,6 +380,10 @@ def cstep (s : CState) : Label → Option CState
                           resetFloor := if c.isReset then max s.resetFloor c.stamp0 else s.resetFloor }
           else none
       | none => none
+  | .bgStart =>
+      -- the goroutine runs for the first time: `defer close(runningCh)`, creates its ticker (first
+      -- tick one interval after THIS moment), `defer t.Stop()`, enters the loop
+      if s.bg = .spawned then some { s with bg := .idle, nextTick := s.now + s.period } else none
   | .bgTake =>
       if s.bg = .idle ∧ s.tickPending = true ∧ (findCl s.cls 0).isNone then
         some { s with tickPending := false, bg := .cleaning,
@@ -455,6 +462,7 @@ inductive Req where
   | gend (id : Nat) (k : Key)
   | cbegin (id : Nat) (isReset : Bool)
   | cfinish (id : Nat)
+  | bgstart                                             -- the periodic goroutine is scheduled for the first time
   | bgsnap
   | bgfinish
   | stop
@@ -504,7 +512,7 @@ def snapResp (id : Nat) (s : CState) : Resp :=
   | none => .error
 
 def tickOf (s : CState) (d : Nat) : Tick :=
-  if !s.tickerStopped && decide (s.nextTick ≤ s.now + d) && decide (0 < s.period) then
+  if !s.tickerStopped && decide (s.bg ≠ .spawned) && decide (s.nextTick ≤ s.now + d) && decide (0 < s.period) then
     (if s.tickPending then .drop else .sent)
   else .none
 
@@ -533,12 +541,16 @@ def respond (s : CState) : Req → Answer
       | none => ⟨s, .error, []⟩
   | .cbegin id r => tryRun s ([.cBegin id r] ++ snapLabels s id) (snapResp id)
   | .cfinish id => if id = 0 then ⟨s, .error, []⟩ else tryRun s (bulkLabels s id) (fun _ => .ok)
+  | .bgstart => tryRun s [.bgStart] (fun _ => .ok)
   | .bgsnap => tryRun s ([.bgTake] ++ snapLabels s 0) (snapResp 0)
   | .bgfinish => tryRun s (bulkLabels s 0) (fun _ => .ok)
   | .stop =>
-      tryRun s ([.stopCall 0] ++ (if s.bg = .idle then [.bgExit] else []) ++ [.stopReturn 0]) (fun _ => .ok)
+      -- Stop blocks until the goroutine has (started, if it had not yet, and) exited
+      tryRun s ([.stopCall 0] ++ (if s.bg = .spawned then [.bgStart, .bgExit] else
+                                  if s.bg = .idle then [.bgExit] else []) ++ [.stopReturn 0]) (fun _ => .ok)
   | .stopcall id =>
-      firstRun s [([.stopCall id, .bgExit, .stopReturn id], .returned),
+      firstRun s [([.stopCall id, .bgStart, .bgExit, .stopReturn id], .returned),
+                  ([.stopCall id, .bgExit, .stopReturn id], .returned),
                   ([.stopCall id, .stopReturn id], .returned),
                   ([.stopCall id], .blocked)]
   | .stopwait id =>
